@@ -11,6 +11,7 @@ import z3
 from .values import Infeasible, U
 
 QUICK_MS = int(os.environ.get("VERIF_Z3_MS", "10000"))
+_CROSSED = {}        # thorough tier: obligation name -> number of path instances already re-solved by the other solvers
 
 
 class Obligation:
@@ -182,7 +183,9 @@ class Ctx:
                     status, backend = "refuted", nm
                     break
         cross = None
-        if status == "proved" and backend == "z3-5.1(py)" and os.environ.get("VERIF_CROSS") == "1":
+        if status == "proved" and backend == "z3-5.1(py)" and os.environ.get("VERIF_CROSS") == "1" and \
+                _CROSSED.get(name, 0) < 3 and not name.startswith("canary:"):
+            _CROSSED[name] = _CROSSED.get(name, 0) + 1       # up to three path instances of every named obligation
             # thorough tier: every obligation z3 5.1 proved is re-solved, from the same SMT-LIB text, by the two other
             # installed solvers; a `sat` answer there is a disagreement (checker broken), `unknown`/timeout is recorded
             smt2 = self.solver.to_smt2()
